@@ -423,7 +423,8 @@ theorem parent_safe (o : Obj) : Tri (PsOnly o.pid) (Fe.parent (goodCfg r) o) (fu
   · rename_i hnone
     exact absurd (foldl_min_none _ _ hnone).1 hne
   · split
-    · exact tri_pure trivial
+    · -- the lowest-PID stop: (since d7107b4) the identity probe first — NoSuchProcess(pid) or None
+      exact tri_bind (tri_exc (rootStop_safe r o) (fun _ _ _ h => nspOnly_psOnly h)) (fun _ _ => tri_pure trivial)
     · refine tri_bind (fe_ppid_safe r o) (fun pp _ => ?_)
       refine tri_bind (fe_createTime_safe r o) (fun ct _ => ?_)
       exact parentBlock_safe r o pp ct
